@@ -259,6 +259,31 @@ def rule_r4(chk, prog, effects):
                 chk.check('C06.R4', m.name, c, False,
                           'os._exit skips the removal of the temporary '
                           'directory', loc=m.loc(c))
+            # the process ends itself with a signal: no interpreter
+            # shutdown, so the TemporaryDirectory finalizer never runs
+            if isinstance(c, ast.Call) and call_name(c) in (
+                    'os.abort', 'signal.raise_signal'):
+                chk.check('C06.R4', m.name, c, False,
+                          f'{call_name(c)} ends the process without '
+                          'interpreter shutdown: the temporary directory '
+                          'stays behind', loc=m.loc(c), nontrivial=True)
+            if isinstance(c, ast.Call) and call_name(c) in (
+                    'os.kill', 'os.killpg') and c.args:
+                tgt = unparse(c.args[0]).replace(' ', '')
+                own = tgt in ('os.getpid()', 'os.getpgid(0)', 'os.getpgrp()',
+                              '0', 'os.getpgid(os.getpid())')
+                if own:
+                    chk.check('C06.R4', m.name, c, False,
+                              'the process signals itself: it dies without '
+                              'interpreter shutdown, the TemporaryDirectory '
+                              'finalizer never runs and the temporary '
+                              'directory (binary copy, candidate file) '
+                              'stays behind after an interrupt',
+                              loc=m.loc(c), nontrivial=True)
+                elif not isinstance(c.args[0], (ast.Name, ast.Attribute)):
+                    raise AnalysisError(
+                        f'{m.loc(c)}: target of {call_name(c)} not '
+                        f'recognised ({tgt})')
     # every temp path is built from <TMPDIR>.name
     n = 0
     for q, f in t.funcs.items():
